@@ -156,6 +156,79 @@ func runC37(c *Ctx) {
 
 	r4 := c.Rule("R4", "undos that cannot tell own from foreign state run only when the step succeeded for this transaction (strict `>` guard; later log calls only through the step's success edge)", 6)
 	foreignBlindUndoRule(c, r4)
+
+	r5 := c.Rule("R5", "a failed commit-point write reaches the pre-image restore: Phase2Commit restores the handles' pre-images (priorityRollback) only while the node keys are still held (nodesKeysExist), so phase2Commit must not clear them between the failure of the all-or-nothing registry update and its return", 3)
+	failedFlipKeepsKeysRule(c, r5)
+}
+
+// failedFlipKeepsKeysRule (C37.R5, shared by C08.R3): derived from Phase2Commit's recovery decision.
+func failedFlipKeepsKeysRule(c *Ctx, r5 string) {
+	w := c.W
+	fP2 := w.Fn(kTxP2)
+	gP2 := w.G(fP2)
+	c.Analysed(fP2)
+	// 1. the decision: priorityRollback is reachable only through a test that depends on nodesKeys
+	keysF := w.Field("common", "Transaction", "nodesKeys")
+	dec := gP2.condNodes(func(e ast.Expr) bool {
+		if w.mentionsCall(fP2, e, "common.Transaction.nodesKeysExist") {
+			return true
+		}
+		hit := false
+		ast.Inspect(e, func(x ast.Node) bool {
+			if sx, ok := x.(ast.Expr); ok && fieldOfSelector(fP2.Pkg.TypesInfo, sx) == keysF {
+				hit = true
+			}
+			return !hit
+		})
+		return hit
+	})
+	prb := calls(kPriorityRB)
+	gated := len(dec) > 0 && len(gP2.Find(prb)) > 0 && len(gP2.notOnlyVia(dec, 1, prb)) == 0
+	c.Check(len(gP2.Find(prb)) > 0, r5, "Phase2Commit: a failed phase 2 can restore the pre-images", fP2.Decl.Pos(), "priorityRollback is called", "Phase2Commit no longer calls priorityRollback", nil)
+	if !gated {
+		c.Held(r5, "phase2Commit: node keys survive a failed commit-point write", fP2.Decl.Pos(), "Phase2Commit's pre-image restore does not depend on the node keys: nothing to require of phase2Commit")
+		return
+	}
+	// 2. who clears nodesKeys
+	var clearers []string
+	for _, f := range w.declaredFuncs("common") {
+		for _, ws := range w.writesOf(f, keysF, true) {
+			if ws.Rhs != nil && isNilLit(f.Pkg.TypesInfo, ws.Rhs) {
+				clearers = append(clearers, f.Key)
+			}
+		}
+	}
+	clearers = dedup(clearers)
+	c.Check(len(clearers) >= 1, r5, "writers that clear Transaction.nodesKeys inventoried", token.NoPos, fmt.Sprintf("%v", shortKeys(clearers)), "none found", nil)
+	// 3. in phase2Commit: from the failure edge of the commit-point write no clearer is reachable
+	f2 := w.Fn(kTxp2)
+	g2 := w.G(f2)
+	c.Analysed(f2)
+	n := 0
+	for _, nc := range g2.callNodes(kRegUpdNL) {
+		if len(nc.cs.Call.Args) < 2 || !isBoolLit(f2.Pkg.TypesInfo, nc.cs.Call.Args[1], true) {
+			continue
+		}
+		n++
+		fail, _, ok := g2.ErrBranches(nc.n, nc.cs)
+		if !ok {
+			c.Violated(r5, "phase2Commit: node keys survive a failed commit-point write", nc.cs.Call.Pos(), "the commit-point write's error is not tested", nil)
+			continue
+		}
+		r := g2.Reach(fail, nil, nil)
+		var offs []Offence
+		for _, x := range g2.Nodes {
+			if !r.Seen[x.ID] {
+				continue
+			}
+			if calls(clearers...)(x) || w.callsReaching(clearers...)(x) {
+				offs = append(offs, Offence{x, r.Path(x.ID)})
+			}
+		}
+		c.Offences(g2, offs, r5, "phase2Commit: node keys survive a failed commit-point write", nc.cs.Call.Pos(), "no path from the failed all-or-nothing update to the return clears nodesKeys",
+			"the node keys are released (nodesKeys = nil) between the failed commit-point write and the return: Phase2Commit then takes the `keys are gone` branch, drops the priority log instead of restoring the pre-images, and the rollback runs against whatever part of the flip reached the registry - flipped handles keep the aborted transaction's successor and their pre-commit blobs are deleted")
+	}
+	c.Check(n == 1, r5, "phase2Commit: one commit-point write", f2.Decl.Pos(), "found", fmt.Sprintf("found %d", n), nil)
 }
 
 // foreignBlindUndoRule (C37.R4, shared by C07.R6).
